@@ -10,9 +10,9 @@
        quotient, and with one indeterminate every term of r has lower degree than the divisor. *)
 From mathcomp Require Import all_ssreflect all_algebra.
 From SsrMultinomials Require Import mpoly.
-From NP Require Import Base Divmod DivmodP DivmodTerm DivmodExact GenDivmod BridgeDivmod.
+From NP Require Import Base Divmod DivmodP DivmodTerm DivmodExact DivmodCut DivmodCutP GenDivmod BridgeDivmod.
 Set Implicit Arguments. Unset Strict Implicit. Unset Printing Implicit Defensive.
-Import GRing.Theory.
+Import GRing.Theory Num.Theory.
 Local Open Scope ring_scope.
 
 Section C05.
@@ -91,6 +91,48 @@ Proof. exact: top_coeff. Qed.
 
 End C05.
 
+(* ---- the cut-off of get_division_candidate (a pair whose candidate coefficient is below the cut-off in EVERY element of
+   the array is skipped; Model/DivmodCut.v, run against the code with cut-offs large enough to matter) ---- *)
+Section C05_cutoff.
+Variables (n : nat).
+
+(* whatever pair the search hands to the loop, dividend = q * divisor + r is kept *)
+Theorem C05_identity_for_any_search (F : fieldType) (cand : seq (elem F) -> option (mono * mono)) fuel (fs gs : seq (spoly F)) out :
+  size fs = size gs -> divmod_with cand fuel fs gs = Ok out ->
+  size out = size fs /\
+  forall i, (i < size fs)%N ->
+    absS n (nth [::] fs i) = absS n (nth ([::], [::]) out i).1 * absS n (nth [::] gs i) + absS n (nth ([::], [::]) out i).2.
+Proof. exact: divmod_with_identity. Qed.
+
+(* in particular for EVERY cut-off *)
+Theorem C05_identity_for_every_cutoff (F : numFieldType) (eps : F) fuel (fs gs : seq (spoly F)) out :
+  size fs = size gs -> divmod_cut eps fuel fs gs = Ok out ->
+  size out = size fs /\
+  forall i, (i < size fs)%N ->
+    absS n (nth [::] fs i) = absS n (nth ([::], [::]) out i).1 * absS n (nth [::] gs i) + absS n (nth ([::], [::]) out i).2.
+Proof. exact: divmod_cut_identity. Qed.
+
+(* the loop with a cut-off stops only when every remaining term that a leading monomial divides has a candidate
+   coefficient below the cut-off in every element *)
+Theorem C05_cutoff_remainder (F : numFieldType) (eps : F) fuel es es' (e : elem F) (e2 : mono) m :
+  run_cut eps fuel es = Ok es' -> e \in es' -> lead (e_g e) = Some e2 -> m \in support (e_d e) -> mdivides e2 m ->
+  forall e', e' \in es' -> `|cand_coef e2 m e'| < eps.
+Proof. by move=> /divmod_cut_stops; exact: candidate_cut_none. Qed.
+
+(* a cut-off that is not positive skips nothing: the loop is the one the termination theorem is about *)
+Theorem C05_cutoff_zero (F : numFieldType) (eps : F) fuel fs gs :
+  eps <= 0 -> divmod_cut eps fuel fs gs = divmod fuel fs gs.
+Proof. by move=> e0; exact: divmod_cut0. Qed.
+End C05_cutoff.
+
+(* the cut-off does change the result when it is large (1/4): q0^2 + q0/8 + 3 by 2 q0 + 1 *)
+Example C05_cutoff_example :
+  let Q := [numFieldType of rat] in
+  let f : spoly Q := [:: ([:: 2%N], 1); ([:: 1%N], 1 / 8%:R); ([:: 0%N], 3%:R)] in
+  let g : spoly Q := [:: ([:: 1%N], 2%:R); ([:: 0%N], 1)] in
+  divmod_cut (1 / 4%:R : Q) 10 [:: f] [:: g] = Ok [:: ([:: ([:: 1%N], 1 / 2%:R)], [:: ([:: 0%N], 3%:R); ([:: 1%N], - (3%:R / 8%:R))])].
+Proof. by vm_compute. Qed.
+
 Theorem C05_control_flow_of_the_source : gen_divmod_facts = nseq 11 true.
 Proof. exact: bridge_divmod_facts. Qed.
 
@@ -126,3 +168,8 @@ Print Assumptions C05_out_of_fuel_is_an_error.
 Print Assumptions C05_exact_multiple.
 Print Assumptions C05_top_terms_multiply.
 Print Assumptions C05_control_flow_of_the_source.
+Print Assumptions C05_identity_for_any_search.
+Print Assumptions C05_identity_for_every_cutoff.
+Print Assumptions C05_cutoff_remainder.
+Print Assumptions C05_cutoff_zero.
+Print Assumptions C05_cutoff_example.
